@@ -305,6 +305,8 @@ def trimRoot : T → T
 structure Parsed where
   tree : T
   nonfinite : Bool
+  /-- the input left after the `;` (where a further `Parse()` of the same `Parser` goes on, 3850fd2) -/
+  rest : List Char := []
 
 /-- the end of `Parse` once `parseIter` has returned at `;` with level 0 -/
 def finish (st : PSt) : Res Parsed :=
@@ -312,8 +314,8 @@ def finish (st : PSt) : Res Parsed :=
   else
     -- newtree.Tips(): dereferences the root
     match st.stk, st.lastRoot with
-    | some (r, inner), _ => .ok ⟨trimRoot (closeAll r inner), st.nonfinite⟩
-    | none, some t => .ok ⟨trimRoot t, st.nonfinite⟩
+    | some (r, inner), _ => .ok ⟨trimRoot (closeAll r inner), st.nonfinite, []⟩
+    | none, some t => .ok ⟨trimRoot t, st.nonfinite, []⟩
     | none, none => .panic "nil root dereferenced by Tips()"
 
 /-- EOF: `parseIter` returns; `Parse` then fails on the level or on the missing `;` -/
@@ -399,12 +401,42 @@ def run (st : PSt) (cs : List Char) : Res Parsed :=
       match stepTok st s.tok s.lit with
       | .cont st' => run st' s.rest
       | .fail m => .err m
-      | .finished st' => finish st'
+      | .finished st' =>
+        -- `Parse` consumes the `;` that `parseIter` had unscanned: the parser stands after it
+        match finish st' with
+        | .ok p => .ok { p with rest := s.rest }
+        | .err m => .err m
+        | .panic m => .panic m
 termination_by cs.length
 decreasing_by
   all_goals first
     | exact scan_rest_lt true cs h
     | exact scanIW_rest_lt cs h
+
+/-- a successful `Parse` has consumed input: what is left is shorter (so a loop of `Parse` calls on one
+    `Parser` ends) -/
+theorem run_rest_lt (st : PSt) (cs : List Char) (p : Parsed) (h : run st cs = .ok p) : p.rest.length < cs.length := by
+  fun_induction run st cs
+  case case2 st cs hc s hne hcb acc hm st' hcc ih =>
+    have h1 := ih h; have h2 : s.rest.length < cs.length := scan_rest_lt true cs hne; omega
+  case case5 st cs hc s hne hcb hm ih =>
+    have h1 := ih h; have h2 : s.rest.length < cs.length := scan_rest_lt true cs hne; omega
+  case case6 st cs hc s hne hcb acc hm ih =>
+    have h1 := ih h; have h2 : s.rest.length < cs.length := scan_rest_lt true cs hne; omega
+  case case7 st cs hc s hne hcb hm ih =>
+    have h1 := ih h; have h2 : s.rest.length < cs.length := scan_rest_lt true cs hne; omega
+  case case9 st cs hc s hne st' hst ih =>
+    have h1 := ih h; have h2 : s.rest.length < cs.length := scanIW_rest_lt cs hne; omega
+  case case11 st cs hc s hne st' hst p' hf =>
+    cases h
+    exact scanIW_rest_lt cs hne
+  all_goals first
+    | (simp [atEOF] at h; done)
+    | (unfold atEOF at h; split at h <;> cases h)
+    | cases h
+
+/-- `Parser.More()` (3850fd2): `scanIgnoreWhitespace` + `unscan`: is anything but white space left? -/
+def more (cs : List Char) : Bool := decide ((scanIW cs).tok ≠ .eof)
 
 /-- `newick.NewParser(r).Parse()` on the decoded input -/
 def parseChars (cs : List Char) : Res Parsed := run {} cs
